@@ -9,7 +9,7 @@ from .common import LEAN, REPO, write_if_changed
 sys.path.insert(0, str(Path(__file__).resolve().parent.parent))
 
 
-ALL = ("scopemap", "builtin", "envconfig", "checkapi", "skeletons", "alias", "registry", "columnprops", "scriptslots", "inferstats", "decorators", "modelrules", "coercerules")
+ALL = ("scopemap", "builtin", "envconfig", "checkapi", "skeletons", "alias", "registry", "columnprops", "scriptslots", "inferstats", "decorators", "modelrules", "coercerules", "backendrules")
 
 
 def regenerate(which=("scopemap",)) -> dict:
@@ -64,6 +64,9 @@ def regenerate(which=("scopemap",)) -> dict:
     if "coercerules" in which:
         from extract import coerce_rules
         write_if_changed(gen / "CoerceRules.lean", coerce_rules.render(REPO))
+    if "backendrules" in which:
+        from extract import backend_rules
+        write_if_changed(gen / "BackendRules.lean", backend_rules.render(REPO))
     if "builtin" in which:
         from extract import builtin_checks
         write_if_changed(gen / "BuiltinChecks.lean", builtin_checks.render(REPO))
